@@ -445,7 +445,7 @@ def build(tier, seed):
         'bounds': {'mutator_depth': depth, 'max_len': L, 'alphabet': [-1, 0, 2], 'registry_array_functions': len(REG),
                    'registry_object_functions': len(OBJ), 'excluded': EXCLUDE, 'uncovered_public_callables': uncovered()},
         'required_classes': ['A:constructor', 'A:reset_values', 'A:list', 'A:i64', 'A:transition-changed-values', 'A-cluster:time_match-shifted',
-                             'B:returned', 'B:raised-both-times', 'B:list-input', 'B:int-input'],
+                             'B:returned', 'B:raised-both-times', 'B:list-input', 'B:int-input', 'B:history'],
         'assumptions': ['purity is decided for the functions in the explicit registry; public callables in neither the registry nor the exclusion '
                         'list are reported under bounds.uncovered_public_callables',
                         'a function that raises for an input must raise again on the second call and still leave its input unchanged'],
@@ -548,6 +548,46 @@ def _scribble_result(res):
         _scribble_result(res.values)
 
 
+HIST_MAXLEN = 4
+
+
+def history_independent(r, name, fn, ctor, rec, sub):
+    other = [1.0, -2.0, 0.5] + [float(v) * 0.5 + 1 for v in rec] + [0.0, 3.0]     # another record, different length
+    other = tile(other, len(rec) + 5)
+
+    def run(obj):
+        try:
+            return 'ok', fn(obj)
+        except Exception as e:  # noqa
+            return 'exc', type(e).__name__
+    try:
+        fresh_obj = ctor(np.array(rec, dtype=float))
+        hist_obj = ctor(np.array(other, dtype=float))
+    except Exception:
+        return
+    for rname in (c04.READS_A if isinstance(hist_obj, eqsig.AccSignal) else c04.READS_S):
+        try:
+            getattr(hist_obj, rname)
+        except Exception:
+            pass
+    run(hist_obj)
+    try:
+        hist_obj.reset_values(np.array(rec, dtype=float))
+    except Exception:
+        return
+    r.evals += 2
+    a0 = run(fresh_obj)
+    a1 = run(hist_obj)
+    r.n_cmp += 1
+    r.cls('B:history')
+    if a0[0] != a1[0] or (a0[0] == 'exc' and a0[1] != a1[1]):
+        r.fail('purity.history-dependent', sub, '%s: fresh object %s, object with a history %s' % (name, a0[0] + (':' + a0[1] if a0[0] == 'exc' else ''),
+                                                                                              a1[0] + (':' + a1[1] if a1[0] == 'exc' else '')))
+    elif a0[0] == 'ok' and not bits_equal(a0[1], a1[1]):
+        r.fail('purity.history-dependent', sub, '%s gives a different result on an object that held another record before (same values, dt and settings now)' % name,
+               observed=a1[1], expected=a0[1])
+
+
 def check_call(r, name, fn, args, snap_of0, sub):
     """one purity probe: snapshot, call, compare, call again, compare results"""
     def snap_of():
@@ -620,6 +660,11 @@ def run_B(case, r):
                     own_method = name.startswith(('AccSignal.', 'Signal.gen_'))
                     check_call(r, name, fn, (s,), (lambda: (snapshot(x), snapshot(np.asarray(s.values)))) if own_method else (lambda: (snapshot(x), object_state(s))),
                                {'fn': name, 'w': w, 'container': kind, 'obj': ctor.__name__})
+                    # "the same result when called again", across objects: an object that reached this record through a history
+                    # (everything read and this very function called while it held another record of a different length, then
+                    # reset_values to this record) is the same input as a fresh object and must give the same result
+                    if kind == 'f64' and not own_method and len(w) <= HIST_MAXLEN:
+                        history_independent(r, name, fn, ctor, rec, {'fn': name, 'w': w, 'obj': ctor.__name__})
 
 
 def run_case(case):
